@@ -2,8 +2,9 @@
 C04 — Mass matrix = Hessian of the kinetic energy of a plate of density `mu`, thickness `h`, whose
 material points move as `u − z w,x`, `v − z w,y`, `w`.
 The theorems COMPUTE where the kernels put the mid-plane: at `z = −d` (`massW P (−P.d)`), whereas
-`laminate.py` stacks the plies from `−t/2 + offset`, i.e. mid-plane at `z = +offset`, and
-`Panel.calc_kM` passes `d = offset` (see the known finding C04-mass-offset-sign).
+`laminate.py` stacks the plies from `−t/2 + offset`, i.e. mid-plane at `z = +offset`; hence the glue
+must pass `d = −offset` (`Panel.calc_kM` passed `+offset` until fix ca9efb9, see known_findings.json:
+C04-mass-offset-sign).  Which sign the running glue passes is checked by tools/props/C04.py.
 Models regenerated from compmech/panel/models/*.pyx on every run.
 -/
 import CompmechVerif.Gen.Panel.Plate
